@@ -18,6 +18,7 @@ TRANSPARENT = (
     "std::future::IntoFuture::into_future", "std::iter::IntoIterator::into_iter",
     "std::slice::<impl [T]>::iter", "std::slice::<impl [T]>::to_vec", "std::vec::Vec::<T, A>::as_slice",
     "std::string::String::as_str", "std::convert::identity",
+    "std::collections::HashMap::<K, V, S, A>::values", "std::collections::HashMap::<K, V, S, A>::values_mut",
 )
 
 
@@ -291,9 +292,9 @@ def peel(e, extra=()):
             return e
 
 
-def path_str(e):
+def path_str(e, open_root=False):
     """canonical access path ("param2.header.id"), looking through refs/derefs/clones; None if
-    the expression is not a pure path."""
+    the expression is not a pure path (with open_root: the non-path root is rendered as "…")."""
     parts = []
     while True:
         e = peel(e)
@@ -325,6 +326,9 @@ def path_str(e):
             parts.append("_%d" % e[1])
             break
         else:
+            if open_root:
+                parts.append("…")
+                break
             return None
     return ".".join(reversed(parts))
 
@@ -1001,3 +1005,161 @@ def unconsumed_drops(fn, l):
             if (s, False) not in seen:
                 work.append((s, 0))
     return out
+
+
+# ------------------------------------------------------------------------------------ EFFECT: path enumeration
+
+def _trackable_locals(fn):
+    """plain locals of Option / bool type all of whose definitions are variant aggregates or bool
+    constants (possibly through one temporary): their value along a path is known exactly."""
+    out = {}
+    for l in range(fn.arg_count + 1, len(fn.locals)):
+        ty = fn.local_ty(l)
+        if not (ty == "bool" or ty.startswith("std::option::Option<")):
+            continue
+        ds = fn.defs().get(l, [])
+        if len(ds) < 2 or any(d[2] != "assign" for d in ds):
+            continue
+        vals = {}
+        ok = True
+        for d in ds:
+            v = _const_variant(fn, fn.blocks[d[0]]["stmts"][d[1]]["rv"])
+            if v is None:
+                ok = False
+                break
+            vals[(d[0], d[1])] = v
+        if ok:
+            out[l] = vals
+    return out
+
+
+def _const_variant(fn, rv, depth=0):
+    if rv["k"] == "agg" and rv["ak"] == "adt":
+        return ("variant", rv["variant"])
+    if rv["k"] == "use":
+        op = rv["op"]
+        if "const" in op and isinstance(op["const"].get("val"), bool):
+            return ("bool", op["const"]["val"])
+        p = op_place(op)
+        if p is not None and is_plain_local(p) and depth < 3:
+            sd = fn.single_def(p["l"])
+            if sd and sd[2] == "assign":
+                return _const_variant(fn, fn.blocks[sd[0]]["stmts"][sd[1]]["rv"], depth + 1)
+    return None
+
+
+def enumerate_paths(fn, max_visits=2, cap=20000):
+    """All entry->return paths visiting each block at most max_visits times, pruned by the exactly
+    known values of trackable Option/bool locals.  Returns (paths, truncated)."""
+    track = _trackable_locals(fn)
+    prog = fn.prog
+    paths = []
+    truncated = [False]
+    rets = set(returns(fn))
+
+    def step_env(b, env):
+        env = dict(env)
+        for i, st in enumerate(fn.stmts(b)):
+            if st["k"] == "assign" and is_plain_local(st["dst"]) and st["dst"]["l"] in track:
+                env[st["dst"]["l"]] = track[st["dst"]["l"]].get((b, i))
+        return env
+
+    def allowed_succs(b, env):
+        t = fn.term(b)
+        if t["k"] != "switch":
+            return fn.succs(b)
+        p = op_place(t["discr"])
+        if p is None or not is_plain_local(p):
+            return fn.succs(b)
+        l = p["l"]
+        known = None
+        adt = None
+        if l in track and env.get(l) is not None:
+            known = env[l]
+        else:
+            sd = fn.single_def(l)
+            if sd and sd[2] == "assign":
+                rv = fn.blocks[sd[0]]["stmts"][sd[1]]["rv"]
+                if rv["k"] == "discr" and is_plain_local(rv["place"]) and rv["place"]["l"] in track:
+                    known = env.get(rv["place"]["l"])
+                    adt = rv.get("adt")
+                elif rv["k"] == "use" and op_place(rv["op"]) is not None and is_plain_local(op_place(rv["op"])) \
+                        and op_place(rv["op"])["l"] in track:
+                    known = env.get(op_place(rv["op"])["l"])
+        if known is None:
+            return fn.succs(b)
+        if known[0] == "bool":
+            want = 1 if known[1] else 0
+        else:
+            want = None
+            for v in prog.adts.get(adt or "std::option::Option", {}).get("variants", []):
+                if v["name"] == known[1]:
+                    want = v["discr"]
+        if want is None:
+            return fn.succs(b)
+        for val, tg in t["targets"]:
+            if val == want:
+                return [tg]
+        return [t["otherwise"]]
+
+    def dfs(b, visits, env, path):
+        if truncated[0]:
+            return
+        if len(paths) >= cap:
+            truncated[0] = True
+            return
+        env = step_env(b, env)
+        path.append(b)
+        if b in rets:
+            paths.append(list(path))
+        else:
+            for s in allowed_succs(b, env):
+                if fn.blocks[s].get("cleanup"):
+                    continue
+                c = visits.get(s, 0)
+                if c >= max_visits:
+                    continue
+                visits[s] = c + 1
+                dfs(s, visits, env, path)
+                visits[s] = c
+        path.pop()
+
+    import sys
+    old = sys.getrecursionlimit()
+    sys.setrecursionlimit(max(old, 20000))
+    try:
+        dfs(0, {0: 1}, {}, [])
+    finally:
+        sys.setrecursionlimit(old)
+    return paths, truncated[0]
+
+
+def store_delta(fn, st):
+    """for `place = place ± const` (checked or unchecked arithmetic) return (place_key, ±const)."""
+    if st["k"] != "assign":
+        return None
+    dst = st["dst"]
+    rv = st["rv"]
+    src = None
+    if rv["k"] == "bin":
+        src = rv
+    elif rv["k"] == "use":
+        p = op_place(rv["op"])
+        if p is not None and p.get("p") and isinstance(p["p"][-1], dict) and p["p"][-1].get("f") == "0" and len(p["p"]) == 1:
+            sd = fn.single_def(p["l"])
+            if sd and sd[2] == "assign":
+                r2 = fn.blocks[sd[0]]["stmts"][sd[1]]["rv"]
+                if r2["k"] == "bin":
+                    src = r2
+    if src is None:
+        return None
+    op = src["op"].replace("WithOverflow", "").replace("Unchecked", "")
+    if op not in ("Add", "Sub"):
+        return None
+    a = op_place(src["a"])
+    if a != dst:
+        return None
+    c = src["b"].get("const", {}).get("val") if "const" in src["b"] else None
+    if not isinstance(c, int) or isinstance(c, bool):
+        return ("sym", op, src["b"])
+    return ("const", c if op == "Add" else -c)
